@@ -383,6 +383,17 @@ def checkPar (p : Prog) (sc : Scenario) (defaultConc : Nat) (o : Obs) : List Div
       (if o.ret.isEmpty then [("ret", "cancel=before: ret nil")] else []) ++
       (o.ret.flatMap fun e => if e != "ctx" then [("ret", s!"cancel=before: ret entry {e} want ctx")] else []) ++
       (if !coe && o.ret.length > 1 then [("ret", s!"fail-fast: {o.ret.length} entries")] else [])
+    else if let some (cs, ci) := sc.cancelSl then
+      -- an element of slice `cs` cancels the context: whatever else happens, a context error in the result means
+      -- the cancellation happened, and then the End function of that slice — which depends on the element that
+      -- cancelled — must not have been started
+      ((o.ret.filter (· != "ctx")).eraseDups.flatMap fun e =>
+        (if !C.contains e then [("ret", s!"ret entry {e} is not a possible failure {C}")] else [])) ++
+      (if !coe && o.ret.length > 1 then [("ret", s!"fail-fast: {o.ret.length} entries")] else []) ++
+      (if o.ret.contains "ctx" && obsLines.contains s!"secall {cs}" then
+        [("cancel", s!"SliceEnd of slice {cs} started although element {ci}, which it depends on, cancelled the context")] else []) ++
+      (if C.isEmpty && o.ret.isEmpty && obsLines.any (fun l => l.startsWith s!"scall {cs} ") && (idealLines.filter (·.startsWith s!"scall {cs} ")).length == (obsLines.filter (·.startsWith s!"scall {cs} ")).length
+        then [("cancel", s!"cancel=sl:{cs}:{ci}: every element of the slice was called, one of them cancelled the context, and the directive returned nil")] else [])
     else match cancelK with
     | some ck =>
       (if o.ret.isEmpty then [("ret", s!"cancel=in:{ck}: ret nil")] else []) ++
@@ -465,6 +476,12 @@ def checkStatic (p : Prog) (toks : List String) : List Div :=
    | some "ok" | some "na" => []
    | some h => [("static.hygiene", s!"pid {p.pid}: {h}")]
    | none => [("static.hygiene", s!"pid {p.pid}: missing")]) ++
+  -- no field of a generated task record is plainly written by a job closure and read by a deferred function
+  -- of the directive's closure (ownership: the caller may run the deferred functions while jobs still run)
+  (match kv rest "shared" with
+   | some "ok" | some "na" => []
+   | some h => [("static.shared", s!"pid {p.pid}: {h}")]
+   | none => [("static.shared", s!"pid {p.pid}: missing")]) ++
   (if !kvB rest "deterministic" then [("static.deterministic", s!"pid {p.pid}")] else []) ++
   (if (kv rest "sourcemap_same") == some "0" then [("static.sourcemap", s!"pid {p.pid}")] else []) ++
   (if (kv rest "modifier_compiles") == some "0" then [("modifier", s!"pid {p.pid}: modifier-mode output does not compile")] else [])
